@@ -463,10 +463,10 @@ func c11Tasks(tier string) []Task {
 		if tier == "quick" && !inQuickSet {
 			continue
 		}
-		// thorough: every start offset; the record-length window is +-48 on the quick tier's offsets, +-24 elsewhere
+		// thorough: every start offset; the record-length window is +-48 on the quick tier's offsets, +-16 elsewhere
 		window := 48
 		if !inQuickSet {
-			window = 24
+			window = 16
 		}
 		tasks = append(tasks, Task{Level: "offset-sweep", Name: fmt.Sprintf("start offsets %d..%d", lo, lo+chunk-1), Fn: func(res *TaskResult) {
 			for e := lo; e < lo+chunk; e++ {
@@ -588,7 +588,7 @@ func init() {
 		Rule:   "for every reachable start offset of the sweep set: record lengths in a +-48 window around the end-of-block boundary for records spanning 1, 2 and 3 blocks, plus tiny records; each as single writes and as one FlushStaged group; FileIO and MMap; sequential + random read-back, sizes, positions, EOF, byte-identical files, reopen + append. Every case is distinct by construction",
 		Assumptions: []string{
 			"format-agnostic oracle: positions/sizes are those the writer returned; the only constant is 'a gap before a record is < 32 bytes and only when the record starts a block'",
-			"quick tier: start offsets 0..127, 32640..32767 and 64 offsets in the middle of every 4 KiB (record lengths +-48 around 1, 2, 3 block ends); thorough tier: all 32768 start offsets (+-24 outside the quick tier's offsets; MMap within +-12)",
+			"quick tier: start offsets 0..127, 32640..32767 and 64 offsets in the middle of every 4 KiB (record lengths +-48 around 1, 2, 3 block ends); thorough tier: all 32768 start offsets (+-16 outside the quick tier's offsets; MMap within +-12)",
 		},
 		Tasks: c11Tasks,
 		Bounds: func(tier string) map[string]any {
